@@ -1,6 +1,8 @@
 //! Helpers shared by the HTTP engines
 use std::net::IpAddr;
 
+pub mod live;
+
 pub fn canonical_ip(ip: IpAddr) -> IpAddr {
     match ip {
         IpAddr::V4(a) => IpAddr::V4(a),
